@@ -318,6 +318,7 @@ func genPartyInput(r *hxlib.Rng, o *hxlib.Out, arg circuit.IOArg, neg bool) (*pa
 type reprCase struct {
 	idx    int
 	kind   string // random | parity | compiled | shared
+	route  string // construction route of the circuit value (routes.go)
 	src    string
 	otName string
 	c      *circuit.Circuit
@@ -337,7 +338,8 @@ func (k *reprCase) detail(extra map[string]any) map[string]any {
 		"evaluator_form": k.y.form, "evaluator_texts": k.y.texts, "evaluator_value": k.y.value.String(),
 		"garbler_arg": k.c.Inputs[0].String(), "evaluator_arg": k.c.Inputs[1].String(),
 		"evaluator_negative": fmt.Sprint(k.y.value.Sign() < 0), "garbler_negative": fmt.Sprint(k.x.value.Sign() < 0),
-		"replay": k.rp,
+		"replay": k.rp, "route": k.route, "circuit_stats_field": statsString(k.c.Stats),
+		"circuit_gate_kinds": statsString(exactStats(k.c.Gates)),
 	}
 	if k.src != "" {
 		d["src"] = k.src
@@ -349,7 +351,7 @@ func (k *reprCase) detail(extra map[string]any) map[string]any {
 }
 
 // buildReprCase derives case i from its own generator.
-func buildReprCase(r *hxlib.Rng, o *hxlib.Out, i int, tier string, compiled []*circuit.Circuit, rsaLeft *int) (*reprCase, error) {
+func buildReprCase(r *hxlib.Rng, o *hxlib.Out, i int, seed uint64, tier string, compiled []*circuit.Circuit, rsaLeft *int) (*reprCase, error) {
 	k := &reprCase{idx: i}
 	var negX, negY, scalarX, scalarY bool
 	ots := []string{"ideal", "co", "ideal", "cot", "ideal", "cotm", "rsa"}
@@ -419,6 +421,9 @@ func buildReprCase(r *hxlib.Rng, o *hxlib.Out, i int, tier string, compiled []*c
 	if k.y, err = genPartyInput(r, o, k.c.Inputs[1], negY); err != nil {
 		return nil, err
 	}
+	// the construction route of the circuit value: planned by case index, own
+	// random stream (a NEW value: compiled circuits are shared between cases)
+	k.c, k.route = applyRoute(k.c, routeOf(i), routeRng(seed, i), o)
 	k.finish(r)
 	return k, nil
 }
@@ -427,8 +432,8 @@ func (k *reprCase) finish(r *hxlib.Rng) {
 	n0 := int(k.c.Inputs[0].Type.Bits)
 	n1 := int(k.c.Inputs[1].Type.Bits)
 	k.tape = r.Bytes(32 + 16*(1+n0+n1))
-	k.op = fmt.Sprintf("c02 int %s %s %s %d %d %s %s %s", k.otName, hxlib.Hex(k.tape), hxlib.CircLine(k.c), n0, n1,
-		intsString(k.widths), k.x.spec, k.y.spec)
+	k.op = routeOp(fmt.Sprintf("c02 int %s %s %s %d %d %s %s %s", k.otName, hxlib.Hex(k.tape), hxlib.CircLine(k.c), n0, n1,
+		intsString(k.widths), k.x.spec, k.y.spec), k.route, k.c)
 	k.frag = r.Fork()
 	k.orng = r.Fork()
 }
@@ -486,6 +491,7 @@ func (k *reprCase) count(o *hxlib.Out) {
 	o.Count("repr_sessions")
 	o.Count("repr_kind_" + k.kind)
 	o.Count("repr_ot_" + k.otName)
+	countRoute(o, "repr", k.route, k.kind, k.otName, k.c)
 	for side, in := range map[string]*partyInput{"garbler": k.x, "evaluator": k.y} {
 		o.Count("repr_" + side + "_form_" + in.form)
 		if in.value.Sign() < 0 {
@@ -547,7 +553,7 @@ func reprRun(cf *hxlib.CommonFlags, o *hxlib.Out, wantOp string) (ran int, sameO
 		r := rng.Fork()
 		// the RSA budget is part of the case derivation: keep it in step
 		// when only one case is wanted
-		k, err := buildReprCase(r, quiet(o, cf.Only >= 0 && i != cf.Only), i, cf.Tier, compiled, &rsaLeft)
+		k, err := buildReprCase(r, quiet(o, cf.Only >= 0 && i != cf.Only), i, uint64(cf.Seed), cf.Tier, compiled, &rsaLeft)
 		if cf.Only >= 0 && i != cf.Only {
 			continue
 		}
@@ -578,9 +584,11 @@ func reprRun(cf *hxlib.CommonFlags, o *hxlib.Out, wantOp string) (ran int, sameO
 		c := hxlib.GenParityCircuit(r, 1+r.Intn(12), 2+r.Intn(80))
 		widths := splitOutputs(r, c)
 		c.Inputs = circuit.IO{shapeArg(r, "a", int(c.Inputs[0].Type.Bits), false), shapeArg(r, "b", int(c.Inputs[1].Type.Bits), false)}
+		// one shared circuit VALUE per round, constructed along the round's route
+		c, route := applyRoute(c, routeNames[round%len(routeNames)], routeRng(uint64(cf.Seed), idx), o)
 		var ks []*reprCase
 		for s := 0; s < reprPar; s++ {
-			k := &reprCase{idx: idx, kind: "shared", otName: "ideal", c: c, widths: widths}
+			k := &reprCase{idx: idx, kind: "shared", route: route, otName: "ideal", c: c, widths: widths}
 			var err error
 			if k.x, err = genPartyInput(r, o, c.Inputs[0], false); err == nil {
 				k.y, err = genPartyInput(r, o, c.Inputs[1], false)
@@ -678,8 +686,8 @@ func replayMode(args []string) int {
 	fmt.Printf("case %d of seed %d (n=%d, tier %s): %d case(s) run; op line identical to the recorded one: %v\n", cf.Only,
 		cf.Seed, cf.N, cf.Tier, ran, same)
 	for _, g := range o.OracleFails {
-		fmt.Printf("FAILS AGAIN: %s\n  garbler arg %v texts %v value %v\n  evaluator arg %v texts %v value %v\n  want %v garbler %v evaluator %v %v %v\n",
-			g["sig"], g["garbler_arg"], g["garbler_texts"], g["garbler_value"], g["evaluator_arg"], g["evaluator_texts"],
+		fmt.Printf("FAILS AGAIN: %s\n  circuit value constructed along route %v: Stats field %v, gate kinds of the gate list %v\n  garbler arg %v texts %v value %v\n  evaluator arg %v texts %v value %v\n  want %v garbler %v evaluator %v %v %v\n",
+			g["sig"], g["route"], g["circuit_stats_field"], g["circuit_gate_kinds"], g["garbler_arg"], g["garbler_texts"], g["garbler_value"], g["evaluator_arg"], g["evaluator_texts"],
 			g["evaluator_value"], g["want"], g["garbler"], g["evaluator"], g["g"], g["e"])
 	}
 	if len(o.OracleFails) > 0 {
